@@ -68,7 +68,7 @@ def natural_matrix(ctx):
              solve_time=0.3, k=3),
         dict(dev="bar", screening=True, tol=1e-4, alpha=1.0, beta=1.0, adaptive=False, dt_init=d6, current=4.0, field=0.5,
              solve_time=0.15, k=2),
-        dict(dev="film", screening=True, tol=1e-3, alpha=0.3, beta=0.8, adaptive=False, dt_init=d6, field=1.5, solve_time=0.15, k=2),
+        dict(dev="film", screening=True, tol=1e-3, alpha=0.3, beta=0.8, adaptive=False, dt_init=d6, field=1.5, solve_time=0.09, k=2),
         # iteration limit hit -> RuntimeError
         dict(dev="bar", screening=True, tol=1e-4, maxiter=2, dt_init=d6, dt_max=0.1, current=4.0, field=0.5, solve_time=0.3, k=3),
         # screening disabled: induced potential identically zero in every frame
@@ -124,7 +124,7 @@ def run(ctx):
     fams = sc.export_many(ctx, exports)
     kjobs = kernel_part(ctx)
     rnd = random.Random(ctx.seed)
-    per = 400 if ctx.quick else 25000
+    per = 300 if ctx.quick else 25000
     scripts = []
     exhaustive = True
     for fam in fams:
@@ -161,11 +161,12 @@ def run(ctx):
         raise core.MachineryFailure("scripted replays never converged or never hit the iteration limit")
     nexact = sum(1 for t in ktraces if t["kind"] == "exact")
     worst = max((t["q"] for t in ktraces if t["kind"] == "random"), default=0)
-    sens = min((t["qnoarea"] for t in ktraces if t["kind"] == "random"), default=0)
-    if nexact < 100 or sens < 10 ** 6:
+    rand = [t for t in ktraces if t["kind"] == "random"]
+    sens = sum(1 for t in rand if t["qnoarea"] >= 10 ** 6) / max(1, len(rand))     # share that would see a dropped area weight
+    if nexact < 100 or len(rand) < 50 or sens < 0.8:
         raise core.MachineryFailure(f"kernel instances too few or insensitive to the area weight: {nexact} {sens}")
     ctx.cov["kernel"] = {"exact_instances": nexact, "random_instances": len(ktraces) - nexact,
-                         "worst_random_mismatch_1e-15": worst, "least_effect_of_dropping_area_1e-15": sens}
+                         "worst_random_mismatch_1e-15": worst, "share_of_random_instances_sensitive_to_the_area_weight": round(sens, 3)}
     ctx.cov["max_frame_mismatch_over_tolerance"] = max((t["stats"]["max_frame_mismatch_over_tol"] for t in scr), default=0)
     for n in sorted(sacc)[:2]:
         ctx.sample({"script": sc.describe_script(dict(cfg=straces[n]["cfg"], hist=straces[n]["script"]["hist"])),
